@@ -3,14 +3,15 @@ import sup
 
 RULE = ("fault enumeration over byte alterations of builder-written archives. One case = (archive configuration, metadata kind, file shape single/3-sector/9-sector, "
         "region kind, corruption kind); inside a case every enumerated offset of the region is altered in a copy of the archive, the verifier the statement names for that "
-        "kind is run (sector/unit checksums: Archive::read_file; CRC32/MD5 attributes: SFileVerifyFile(FILE_CRC|FILE_MD5) of the included C API + read_file; version-4 "
+        "kind is run (sector/unit checksums: Archive::read_file; CRC32/MD5 attributes: SFileVerifyFile of the included C API + read_file, with every flag selection driven as a case "
+        "of its own: FILE_CRC|FILE_MD5, FILE_CRC alone, FILE_MD5 alone (only where the archive carries MD5s), 0 = everything available; version-4 "
         "digests: Archive::open + get_info().md5_status relative to the intact archive's status; weak signature: Archive::verify_signature on an archive signed with "
         "generate_weak_signature) and the affected files are read: detected | harmless (content bit-identical) | undetected-and-different = violation; an intact archive that "
         "fails its verifier = violation. Regions: file data, sector offset table, sector CRC table, unit CRC, attributes file (header / crc32 / filetime / md5 arrays), "
         "V4 header 0..192, header digest, hash / block / HET+BET tables, signature, everything the signature covers. Corruption kinds: quick ^0x01 at every offset of tables "
         "and every 7th (37th in 4 KiB-sector archives) offset of file data with a seed-dependent phase; thorough every offset x {^0x01, ^0x80, =0, =0xFF, 2-byte burst}. "
         "Multi-region alterations: stored checksum zeroed + data byte altered; all V4 digests zeroed + table byte altered; data byte altered + CRC32 (or MD5) attribute "
-        "rewritten to match (the other attribute must object); attribute entries zeroed + data byte altered. Signature functions: 200 (thorough 600) byte strings 0..200 KiB "
+        "rewritten to match (the other attribute must object); attribute entries zeroed + data byte altered. Archive layouts: the archive starts the file, or (every metadata kind, fewer configurations) sits behind 512..2048 bytes of foreign data so that every verifier has to add the archive offset (signatures of cases behind a prefix end in |archive-offset>0, except the known multi-sector findings, which do not depend on it). Signature functions: 200 (thorough 600) byte strings 0..200 KiB "
         "(lengths around the 64 KiB digest unit), signature area outside and inside the data, signed with generate_weak_signature, verified with both verify functions, all 512 "
         "signature bits and ~1000 data bits (targeted at unit / exclusion boundaries + random) flipped. distinct = distinct (archive configuration, kind, file shape, region, "
         "corruption kind) classes with at least one altered offset executed (+ signature-string length classes).")
@@ -21,6 +22,9 @@ ASSUME = ["the region map (where to corrupt) comes from the library's own header
           "the 8 bytes in front of the 64 signature bytes in (signature) are neither hashed nor part of the signature: altering them is tallied, not judged",
           "a V4 digest that is already invalid on the intact archive (known finding) cannot report anything: detection is judged on the digests that were valid",
           "verify_weak_signature (legacy) hashes the first archive_size bytes as they are, so it is compared only when the signature area lies outside the data",
+          "a flag selection is only judged on archives that carry the attribute it names: FILE_MD5 alone on a CRC32-only archive has nothing to compare; SECTOR_CRC alone is not driven through the "
+          "C API (the statement's verifier for sector checksums is read_file, judged by the vh-mpq worker)",
+          "an archive behind a prefix is the prefix-free build with foreign bytes put in front (all stored offsets are relative to the archive start); the prefix bytes themselves are not protected and are not altered",
           "SFileVerifyArchive(ALL_FILES) is not used: it deadlocks on its own lock (C19 finding)"]
 
 
